@@ -225,7 +225,7 @@ func ruleC04LoaderRejectsInvalid(c *Ctx) {
 				return
 			}
 			call, ok := src.Tuple.(*ssa.Call)
-			if !ok || !invokeIs(call, pkgApp, "Metastore", "LoadLatest") {
+			if _, isLL := invokeOrForwarder(call, pkgApp, "Metastore", "LoadLatest"); !ok || !isLL {
 				return // records from mustLoadLatest (duplicate fallback) or parameters: not this rule
 			}
 			n++
